@@ -555,6 +555,8 @@ class Model(Object):
             associated_groups = self.get_associated_groups(x)
             for group in associated_groups:
                 group.remove_members(x)
+                if get_context(self):
+                    get_context(self)(partial(group.add_members, [x]))
 
             if not destructive:
                 for the_reaction in list(x._reaction):  # noqa W0212
@@ -847,6 +849,8 @@ class Model(Object):
                 associated_groups = self.get_associated_groups(reaction)
                 for group in associated_groups:
                     group.remove_members(reaction)
+                    if context:
+                        context(partial(group.add_members, [reaction]))
 
     def _restore_objective_coefficients(self, coefficients: Dict[str, float]) -> None:
         """Set coefficients of the current objective by variable name.
